@@ -87,6 +87,38 @@ theorem invalid_open_never_confirms (cfg : Cfg) (h : List (Role × Ev)) (r : Rol
   rw [this]
   exact (inv_down_frees cfg p hi r .disconnected trivial).1
 
+/-- **End-to-end trace property.**  If role `r` is Established at the end of a history `h`, then
+    `h` contains, for that role and in this order,
+      * at position `i` a `connected` that found the slot free (Idle before it) — after which the
+        role is OpenSent (our OPEN was sent: `check_run_ok`, clause `sentOpen`) at every position
+        up to `j`,
+      * at position `j` an acceptable OPEN (`AcceptableOpen`: expected AS; for a wire OPEN also a
+        valid hold time and identifier, `acceptable_rawOpen`) — OpenConfirm at every position up to `k`,
+      * at position `k` a KEEPALIVE — Established at every position from there to the end;
+    so there is no tear-down of that connection anywhere between `i` and the end.
+    (`stateAt cfg h r m` is the state of `r` after the first `m` events; `evInput` maps a wire OPEN
+    to the parsed OPEN it becomes.) -/
+theorem established_trace (cfg : Cfg) (h : List (Role × Ev)) (r : Role)
+    (he : (runFrom (Peer.init cfg) h).1.state r = .established) :
+    ∃ i j k, ∃ hi : i < h.length, ∃ hj : j < h.length, ∃ hk : k < h.length, i < j ∧ j < k ∧
+      h[i].1 = r ∧ (∃ b, evInput h[i].2 = .connected b) ∧ stateAt cfg h r i = .idle ∧
+      (∀ m, i < m → m ≤ j → stateAt cfg h r m = .openSent) ∧
+      h[j].1 = r ∧ AcceptableOpen cfg h[j].2 ∧
+      (∀ m, j < m → m ≤ k → stateAt cfg h r m = .openConfirm) ∧
+      h[k].1 = r ∧ evInput h[k].2 = .msg .keepalive ∧
+      (∀ m, k < m → m ≤ h.length → stateAt cfg h r m = .established) := by
+  have hs : stateAt cfg h r h.length = .established := by
+    unfold stateAt; rw [List.take_length]; exact he
+  have := phases_all cfg h r h.length (Nat.le_refl _)
+  rw [hs] at this
+  obtain ⟨i, j, k, hi, hj, hk, a1, a2, a3, a4, a5, a6, a7, a8, a9, a10, a11, a12, a13⟩ := this
+  exact ⟨i, j, k, hi, hj, hk, a1, a2, a4, a5, a6, a7, a8, a9, a10, a11, a12, a13⟩
+
+/-- What "acceptable" means for an OPEN that arrived on the wire. -/
+theorem acceptable_wire_open {cfg : Cfg} {o : RawOpen} (h : AcceptableOpen cfg (.rawOpen o)) :
+    validHold o.hold = true ∧ validId o.rid = true ∧ (cfg.expectedAsn = 0 ∨ cfg.expectedAsn = o.asn) :=
+  acceptable_rawOpen h
+
 /-! ## 3. A message not allowed in the current state ⇒ FSM-error NOTIFICATION with that state -/
 
 /-- `NotAllowed st m` (from `Proofs.lean`): OPEN when `st ≠ OpenSent`; KEEPALIVE when `st` is
@@ -265,6 +297,13 @@ end Witnesses
 
 /-! ## 7. Axioms -/
 
+/-- `established_trace` is not vacuous: a history ending with the active role Established. -/
+example : (runFrom (Peer.init { localRid := 10, localAsn := 65001, localHold := 90, expectedAsn := 65002 })
+    [(.passive, .input .holdTimer), (.active, .input (.connected false)),
+     (.active, .rawOpen { asn := 65002, hold := 30, rid := 5 }), (.passive, .input (.connected false)),
+     (.active, .input (.msg .keepalive)), (.active, .input (.msg .update))]).1.state .active = .established := by
+  decide
+
 #print axioms check_run_ok
 #print axioms reachable_inv
 #print axioms at_most_one_confirmed
@@ -279,5 +318,7 @@ end Witnesses
 #print axioms established_survives_newcomer
 #print axioms collision_survivor
 #print axioms collision_survivor_cases
+#print axioms established_trace
+#print axioms acceptable_wire_open
 
 end Rbgp.Fsm.Props
